@@ -30,8 +30,17 @@ import Isotp.Props.C01live
   * `recv_returns_all`: then `k` calls of `recv()` on B return p₁, …, p_k in order and the next one returns None.
   * `not_before`: the bound is exact — before `queueRounds l` rounds B has not delivered all the payloads.
   * `queue_completes_scenarios`: the same under `Lockstep.Scenario` for every payload (the vocabulary of C01live).
-  * `single_message`: for one message `queueRounds [p] = roundsFor p` (C01live.transfer_completes is the case k = 1).
-  The machinery is in Isotp/Proofs/LockstepQueue*.lean.
+  * `interleaved_completes` (+ `_simple`): the `send` calls may be INTERLEAVED with the rounds in any way (`QStep`,
+    `runSched`: a schedule is a list of steps, each `A.send(id, p)` or one round). Every `send` returns None; at the
+    end of the schedule the messages split into `done ++ pend`, B's rx queue holds exactly the payloads of `done` and
+    their requests were completed; after `N ≥ queueRounds pend` (≤ `queueRounds` of all messages) further rounds the
+    conclusion of `queue_completes` holds for all the messages sent, in the order of the `send` calls.
+  * `single_message`, `queueRounds_eq`, `queueRounds_le_sum`: for one message `queueRounds [p] = roundsFor p`
+    (C01live.transfer_completes is the case k = 1); `queueRounds l + (k − 1) = Σ roundsFor pᵢ`: consecutive messages
+    overlap by exactly one round.
+  Nothing here is partial: the statements `C01queue_statement`, `C01queue_interleaved_statement` are proved as stated.
+  The machinery is in Isotp/Proofs/LockstepQueue*.lean (sender with a queue; receiver with several messages per pass;
+  lockstep invariant `QIdle` / `QLock` / `QAfter`; iteration; schedules).
 -/
 namespace Isotp.C01queue
 open Isotp Isotp.State Isotp.Spec Isotp.Proofs Isotp.Lockstep Isotp.LockstepQ
@@ -305,7 +314,6 @@ theorem startNetQ_single (ca cb : Cfg) (aa ab : Addr) (id : Nat) (p : Bytes) :
 /-! ## concrete instances (non-vacuity): classic CAN, normal 11-bit addressing; three queued messages:
       a Single Frame (3 bytes), a 20-byte message (3 frames), a 30-byte message (5 frames) -/
 
-open Isotp.C01live in
 /-- the queued messages: ids 1, 2, 3 -/
 def exL : List (Nat × Bytes) :=
   [(1, [1, 2, 3]), (2, (List.range 20).map UInt8.ofNat), (3, (List.range 30).map fun i => UInt8.ofNat (i + 100))]
@@ -423,6 +431,34 @@ example : queueRounds exCa (exCb 2 0) exAddrA [(2, exP2), (1, [1, 2, 3]), (5, [9
 example : runQ (exCb 8 0) [(7, [1]), (7, [2]), (7, [3])] 1 1 = some ⟨[none, none, none], [[1], [2], [3]], 0,
     [.idle, .idle], [.idle, .idle], 1, [(7, true), (7, true), (7, true)], true, true,
     [some [1], some [2], some [3], none]⟩ := by decide +kernel
+
+/-- `recv()` on B after the run: the three payloads in order, then None -/
+example : ∃ d0 d evA evB a b, startNetQ exCa (exCb 2 0) exAddrA exAddrB exL = some (d0, [none, none, none]) ∧
+    canonRounds 1 4 d0 = some (d, evA, evB) ∧ d.layers = #[a, b] ∧
+    recvN 4 b = [some [1, 2, 3], some exP2, some exP3, none] := by
+  obtain ⟨d0, d, evA, evB, h0, h1, hc, -⟩ :=
+    queue_completes _ _ _ _ exL _ exQScenario_2_0 rfl (accepted_of_forall (by decide)) 4 (by decide)
+  obtain ⟨a, b, hl, hr⟩ := recv_returns_all exL d evA evB hc
+  exact ⟨d0, d, evA, evB, a, b, h0, h1, hl, hr⟩
+
+/-- the same payload queued twice (ids 7 and 8) under the hypotheses of C01live -/
+example : ∃ d0 d evA evB, startNetQ exCa (exCb 2 1) exAddrA exAddrB [(7, exP), (8, exP)] = some (d0, [none, none]) ∧
+    canonRounds 1000001 7 d0 = some (d, evA, evB) ∧ CompletedAll [(7, exP), (8, exP)] d evA evB ∧
+    d.now = 7 * 1000001 :=
+  queue_completes_scenarios _ _ _ _ [(7, exP), (8, exP)] _ (by decide)
+    (fun id p h => by
+      have : p = exP := by simp at h; rcases h with ⟨-, h⟩ | ⟨-, h⟩ <;> exact h
+      subst this; exact ⟨exScenario_2_1, by decide⟩)
+    rfl (accepted_of_forall (by decide)) 7 (by decide)
+example : Isotp.C01queue.QScenario exCa (exCb 2 1) exAddrA exAddrB [(7, exP), (8, exP)] 1000001 :=
+  qscenario_of_scenarios _ _ _ _ _ _ (by decide)
+    (fun id p h => by
+      have : p = exP := by simp at h; rcases h with ⟨-, h⟩ | ⟨-, h⟩ <;> exact h
+      subst this; exact ⟨exScenario_2_1, by decide⟩)
+example : queueRounds exCa (exCb 2 1) exAddrA [(7, exP), (8, exP)] + 1 =
+    roundsFor exCa (exCb 2 1) exAddrA exP + roundsFor exCa (exCb 2 1) exAddrA exP := by decide
+example : queueRounds exCa (exCb 2 1) exAddrA [(7, exP)] = roundsFor exCa (exCb 2 1) exAddrA exP :=
+  single_message _ _ _ (by decide) 7 exP
 
 /-! ### sends interleaved with rounds -/
 
